@@ -239,7 +239,10 @@ end Plan
     for every commutative semiring, with hypotheses only on the caller's `free` list.
     Modified/dynamic bookkeeping: `Run.modified_step_isGStep` (a HEAD step of those variants is a generalized
     step of the machine of the eliminated plates) and `Run.C09_3_witness` (dropping `& prod_vars` is not).
-    Still missing for the executable model, named precisely: the PLATED cases — `component` with
+    Executable model, SINGLE-BUCKET class (fourth phase, `Props/C09/Bucket.lean`): one plate level — every factor
+    carries all the eliminated plates, every summed variable lives in them — `Exec.sum_product_exact_bucket`,
+    same statement, with the closed form of `unroll` at non-empty plate contexts (`unroll_bucket`).
+    Still missing for the executable model, named precisely: graphs with SEVERAL ordinals, i.e. the PLATED cases — `component` with
     `leaf ≠ []` as the executable counterpart of `Run.elim_group` (`Asg`/`merge` realised by `points`/`++`,
     `prodOut` over `leaf - new_plates`, `addPending` filing, several loop iterations) and `unroll`'s copies
     with non-empty plate contexts (`sumCopies_pure` is already general).
